@@ -36,6 +36,16 @@ impl FileLocation for Loc {
     }
 }
 
+/// candidate strings of the form "dyld=<cache file>=<dylib path>" stand for an image inside a dyld shared cache
+fn cand(p: &str) -> CandidatePathInfo<Loc> {
+    if let Some(rest) = p.strip_prefix("dyld=") {
+        if let Some((cache, dylib)) = rest.split_once('=') {
+            return CandidatePathInfo::InDyldCache { dyld_cache_path: Loc(cache.to_string()), dylib_path: dylib.to_string() };
+        }
+    }
+    CandidatePathInfo::SingleFile(Loc(p.to_string()))
+}
+
 #[derive(Default)]
 pub struct MemHelper {
     pub files: HashMap<String, Arc<Vec<u8>>>,
@@ -59,10 +69,10 @@ impl FileAndPathHelper for MemHelper {
     type FL = Loc;
 
     fn get_candidate_paths_for_debug_file(&self, _info: &LibraryInfo) -> FileAndPathHelperResult<Vec<CandidatePathInfo<Loc>>> {
-        Ok(self.debug_candidates.iter().map(|p| CandidatePathInfo::SingleFile(Loc(p.clone()))).collect())
+        Ok(self.debug_candidates.iter().map(|p| cand(p)).collect())
     }
     fn get_candidate_paths_for_binary(&self, _info: &LibraryInfo) -> FileAndPathHelperResult<Vec<CandidatePathInfo<Loc>>> {
-        Ok(self.binary_candidates.iter().map(|p| CandidatePathInfo::SingleFile(Loc(p.clone()))).collect())
+        Ok(self.binary_candidates.iter().map(|p| cand(p)).collect())
     }
     fn get_candidate_paths_for_gnu_debug_link_dest(&self, _orig: &Loc, _name: &str) -> FileAndPathHelperResult<Vec<Loc>> {
         Ok(self.debuglink_candidates.iter().map(|p| Loc(p.clone())).collect())
